@@ -21,3 +21,32 @@ pub open spec fn lift_msg<C>(m: CosmosMsg<Empty>) -> CosmosMsg<C> {
 //@   ensures [C17.lift.frame] r.id == msg.id && r.payload == msg.payload && r.gas_limit == msg.gas_limit && r.reply_on == msg.reply_on
 //@   replace_re? "where\\s*C: CustomMsg,\\s*" => ""
 //@ end
+
+// cosmwasm_std::Response builder calls used by customize_response   (ASSUMED: std docs of cosmwasm-std 2.2.2 results/response.rs)
+impl<T> Response<T> {
+    #[verifier::external_body]
+    pub fn new() -> (r: Self) ensures r.messages@.len() == 0, r.attributes@.len() == 0, r.events@.len() == 0, r.data is None { unimplemented!() }
+    #[verifier::external_body]
+    pub fn add_submessages<I: Iterator<Item = SubMsg<T>>>(self, msgs: I) -> (r: Self)
+        ensures r.messages@ == self.messages@ + msgs.remaining(), r.attributes == self.attributes, r.events == self.events, r.data == self.data
+    { unimplemented!() }
+    #[verifier::external_body]
+    pub fn add_events(self, events: Vec<Event>) -> (r: Self)
+        ensures r.events@ == self.events@ + events@, r.attributes == self.attributes, r.messages == self.messages, r.data == self.data
+    { unimplemented!() }
+    #[verifier::external_body]
+    pub fn add_attributes(self, attrs: Vec<Attribute>) -> (r: Self)
+        ensures r.attributes@ == self.attributes@ + attrs@, r.events == self.events, r.messages == self.messages, r.data == self.data
+    { unimplemented!() }
+}
+pub open spec fn lift_sub<C>(m: SubMsg<Empty>) -> SubMsg<C> {
+    SubMsg { id: m.id, payload: m.payload, msg: lift_msg::<C>(m.msg), gas_limit: m.gas_limit, reply_on: m.reply_on }
+}
+//@ fn src/contracts.rs :: customize_response
+//@   ret r
+//@   replace_re? "where\\s*C: CustomMsg,\\s*" => ""
+//@   replace_re "resp\\.messages\\.into_iter\\(\\)\\.map\\(customize_msg::<C>\\)" => "iter_map(resp.messages.into_iter(), |vx_m: SubMsg<Empty>| -> (o: SubMsg<C>) requires !(vx_m.msg is Custom) ensures o == lift_sub::<C>(vx_m) { customize_msg::<C>(vx_m) })"
+//@   requires [C17.lift_resp.pre] forall|i: int| 0 <= i < resp.messages@.len() ==> !((#[trigger] resp.messages@[i]).msg is Custom)
+//@   ensures [C17.lift_resp.messages,C04] r.messages@.len() == resp.messages@.len() && forall|i: int| 0 <= i < resp.messages@.len() ==> #[trigger] r.messages@[i] == lift_sub::<C>(resp.messages@[i])
+//@   ensures [C17.lift_resp.rest,C04] r.events@ == resp.events@ && r.attributes@ == resp.attributes@ && r.data == resp.data
+//@ end
